@@ -2002,6 +2002,14 @@ class Transport(threading.Thread, ClosingContextManager):
         key = self._key_info[self.host_key_type](Message(host_key))
         if key is None:
             raise SSHException("Unknown host key type")
+        # The signature must use the negotiated host key algorithm (minus any
+        # certificate suffix), not merely some algorithm the key class knows.
+        expected = self.host_key_type.replace("-cert-v01@openssh.com", "")
+        if Message(sig).get_binary() != expected.encode("utf8"):
+            raise SSHException(
+                "Host key signature does not use the negotiated algorithm "
+                "({})".format(self.host_key_type)
+            )
         if not key.verify_ssh_sig(self.H, Message(sig)):
             raise SSHException(
                 "Signature verification ({}) failed.".format(
